@@ -50,6 +50,12 @@ def run(rep, idx, tier):
     if not require_supported(rep, "C15.1", c):
         return
     req = "~self.wb_bus.ack & self.wb_bus.cyc & self.wb_bus.stb"
+    # the memory whose ports are driven below is part of the design, unconditionally
+    mem_subs = [(c.norm(v), gen) for _, v, gen, _ in c.t.submodules]
+    mems = {k for k, (v, g, ln) in ctor.stores.items() if v[0] == 'call' and ir.show(v[1]).split(".")[-1] == "Memory"}
+    ok_mem = any(ir.show(v) in mems and not gen for v, gen in mem_subs)
+    rep.check(ok_mem, "C15.3", site, "the memory is a submodule of the component, unconditionally",
+              f"submodules: {[ir.show(v) for v, g in mem_subs]}; memory objects created by the constructor: {sorted(mems)}")
 
     # C15.1 acknowledge
     ack = c.drivers_of(c.parse("self.wb_bus.ack"))
